@@ -203,6 +203,11 @@ def c03(out, a):
     M = models(a.tier)
     for name, m in M.items():
         sv = m["sv"](n) if m["sv"] else None
+        if name.endswith("-loaded"):
+            # stored maximum energy per point: above the energy of the state and of its whole stencil (one branch: unloading), but close
+            # enough for the softening function to be ACTIVE (its derivative enters the tangent)
+            base = fem.NeoHooke(mu=1.25, bulk=4.0 if name.startswith("Ogden") else None)
+            sv = (2.0 * np.asarray(base.function([F, None])[0], float) + 0.3).reshape(1, n, 1)
         for dname, D in directions(rng, quick):
             Db = D[:, :, None, None]
             rid = "deriv-%s-%s" % (name, dname)
